@@ -31,7 +31,15 @@ MARKER_PROPS = {
     "VF:owned.forms.earlier_read_changed": ["C02"],
     "VF:string.forms.": ["C20"],
     "VF:columns.": ["C12", "C01", "C02"],
-    "VF:columns.dense_indices": ["C12", "C20"],
+    "VF:columns.dense_indices": ["C12"],
+    "VF:string.": ["C04", "C01", "C02"],
+    "VF:string.valid_utf8": ["C04"],
+    "VF:string.cip.dense_indices": ["C12"],
+    "VF:string.columns.merge_dense": ["C12", "C10"],
+    "VF:string.columns.merge_len": ["C12", "C10", "C01"],
+    "VF:string.columns.len": ["C12", "C01", "C02"],
+    "VF:string.slice.len": ["C01", "C02"],
+    "VF:string.slice.into_owned": ["C14", "C01"],
     "VF:columns.forms.": ["C20"],
     "VF:option.roundtrip": ["C01", "C02"],
     "VF:result.roundtrip": ["C01", "C02"],
@@ -47,6 +55,8 @@ MARKER_PROPS = {
     "VF:collapse.plain": ["C11"],
     "VF:collapse.after_merge_read": ["C11", "C10"],
     "VF:slice.reserve": ["C10"],
+    "VF:reserve.": ["C10"],
+    "VF:reserve.changed_existing_read": ["C10", "C02"],
     "VF:columns.get": ["C13"],
     "VF:huffman.": ["C06"],
     "VF:huffman.read_differs_from_pushed": ["C06", "C01", "C02"],
@@ -105,6 +115,7 @@ def native_search(h, seed, timeout=1800, known=(), pid=None, samples=400000):
     """Bounded-exhaustive enumeration of the harness's argument domains in both build profiles."""
     res = dict(harness=h["name"], engine="native bounded-exhaustive enumeration", bound=h["bound"], searched=0, profiles=[], found=None, samples=[], wall_s=0.0)
     t0 = time.time()
+    errors = []
     for profile in ("debug", "release"):
         ok, path, log = cex.build_replay(profile)
         if not ok:
@@ -131,8 +142,11 @@ def native_search(h, seed, timeout=1800, known=(), pid=None, samples=400000):
             res["found"] = dict(inputs=[int(x) for x in f.group(2).split()], profile=profile, message=msg.group(1).strip() if msg else "")
             break
         if p.returncode not in (0, 1):
-            res["error"] = f"{profile}: search exited {p.returncode}: {p.stdout[-200:]}{p.stderr[-200:]}"
-            return res
+            # the enumeration process died (abort / signal, e.g. a non-unwinding panic): nothing is decided in this
+            # profile, but the other profile is still searched — it may well exhibit the input
+            errors.append(f"{profile}: search exited {p.returncode}: {p.stdout[-200:]}{p.stderr[-200:]}")
+    if errors and not res["found"]:
+        res["error"] = "; ".join(errors)
     res["wall_s"] = round(time.time() - t0, 2)
     return res
 
